@@ -501,8 +501,11 @@ def _search_names(co, values, glb, closure=None):
                 yield from _search_names(ct, values, glb)
 
 
-def adapt_function(fn, ovld, newname):
-    """Create a copy of the function with a different name."""
+def adapt_function(fn, ovld, newname, slot=None):
+    """Create a copy of the function with a different name.
+
+    slot identifies the method across rebuilds of the ovld (see recode).
+    """
     rec_syms = list(
         _search_names(
             fn.__code__,
@@ -516,7 +519,7 @@ def adapt_function(fn, ovld, newname):
     )
     if rec_syms or cn_syms:
         return recode(
-            fn, ovld, tuple(rec_syms), cn_syms and cn_syms[0], newname
+            fn, ovld, tuple(rec_syms), cn_syms and cn_syms[0], newname, slot
         )
     else:
         return rename_function(fn, newname)
@@ -548,10 +551,16 @@ def closure_wrap(tree, fname, names):
     return ast.Module(body=[wrap], type_ignores=[])
 
 
-def recode(fn, ovld, recurse_sym, call_next_sym, newname):
+def recode(fn, ovld, recurse_sym, call_next_sym, newname, slot=None):
     ovld_mangled = f"___OVLD{ovld.id}"
     map_mangled = f"___MAP{ovld.id}"
-    code_mangled = f"___CODE{next(_current)}"
+    # call_next looks up the continuation under the code object found in this
+    # global. A method keeps the same global across rebuilds of the ovld, so
+    # that an activation that started before a rebuild continues below the
+    # current version of itself instead of starting over.
+    if slot is None:
+        slot = next(_current)
+    code_mangled = f"___CODE{slot}"
     try:
         src = inspect.getsource(fn)
     except OSError:  # pragma: no cover
